@@ -113,6 +113,39 @@ def coq_list(vals, per=16):
     return "[" + ";\n  ".join(rows) + "]"
 
 
+def mix_tables():
+    """mix_all.c: its local macros' values and the spline tables as the C compiler sees them, and every MIXER(name) { body } as a
+    list of canonical statements (whitespace removed).  lfo.c: the sine table."""
+    d = tempfile.mkdtemp(prefix="vp-mixtab-", dir="/var/tmp")
+    try:
+        src = os.path.join(d, "p.c")
+        names = ["SMIX_SHIFT", "SMIX_MASK", "SPLINE_SHIFT", "SPLINE_QUANTBITS", "FILTER_SHIFT", "PREAMP_BITS", "FILTER_MIN", "FILTER_MAX", "ANTICLICK_SHIFT"]
+        body = "#include <stdio.h>\n#include \"%s\"\nint main(void) { int i;\n" % os.path.join(V.REPO, "src", "mix_all.c")
+        body += "".join(" printf(\"D %s %%lld\\n\", (long long)(%s));\n" % (n, n) for n in names)
+        for k in range(4):
+            body += " for (i = 0; i < (int)(sizeof cubic_spline_lut%d / sizeof cubic_spline_lut%d[0]); i++) printf(\"L%d %%d\\n\", (int)cubic_spline_lut%d[i]);\n" % (k, k, k, k)
+        body += " return 0; }\n"
+        open(src, "w").write(body)
+        exe = os.path.join(d, "p")
+        r = subprocess.run(["cc", "-w"] + V.DEFINES + ["-I" + os.path.join(V.REPO, "include"), "-I" + os.path.join(V.REPO, "src"), src, "-o", exe], capture_output=True, text=True)
+        if r.returncode != 0:
+            raise V.BuildError("mix_all.c probe does not compile:\n" + r.stderr[:2000])
+        out = subprocess.run([exe], capture_output=True, text=True).stdout
+    finally:
+        subprocess.run(["rm", "-rf", d])
+    consts = {l.split()[1]: int(l.split()[2]) for l in out.split("\n") if l.startswith("D ")}
+    luts = [[int(l.split()[1]) for l in out.split("\n") if l.startswith("L%d " % k)] for k in range(4)]
+    s = strip_comments(open(os.path.join(V.REPO, "src", "mix_all.c")).read())
+    kernels = []
+    for m in re.finditer(r"^MIXER\((\w+)\)\s*\{(.*?)^\}", s, re.S | re.M):
+        body = re.sub(r"\s+", "", m.group(2))
+        stmts = [x for x in re.split(r"(?<=[;{}])", body) if x]
+        stmts = [x[:-1] if x.endswith(";") else x for x in stmts]
+        kernels.append((m.group(1), [x for x in stmts if x]))
+    sine = int_table("src/lfo.c", "sine_wave")
+    return consts, luts, kernels, sine
+
+
 SENSITIVE = set("""fopen fopen64 open open64 openat opendir readdir readdir64 closedir execvp execv execve execlp execl fork vfork popen system
 unlink remove rename mkstemp mkstemp64 mkdir tmpfile tmpfile64 fdopen freopen getenv stat stat64 lstat fstat fstat64 creat chdir socket connect dlopen
 pipe dup2 wait waitpid kill tmpnam mktemp
@@ -173,6 +206,18 @@ def regenerate(with_objects=True):
     t.append("Definition it_fx_table : list Z :=\n  %s." % coq_list(it_fx))
     t.append("Definition IT_FX_NONE : Z := %d.\nDefinition IT_FX_XTND : Z := %d." % (it_loc["FX_NONE"], it_loc["FX_XTND"]))
     V.write_if_changed(os.path.join(V.COQ, "Generated", "Tables.v"), "\n".join(t) + "\n")
+    mc, luts, kernels, sine = mix_tables()
+    mt = ["(* GENERATED from /repo's working tree (src/mix_all.c, src/precomp_lut.h, src/lfo.c) by lib/gentables.py on every run. Do not edit. *)",
+          "From Coq Require Import ZArith List String.", "Import ListNotations.", "Local Open Scope Z_scope.", ""]
+    for k in sorted(mc):
+        mt.append("Definition C_%s : Z := %s." % (k, mc[k] if mc[k] >= 0 else "(%d)" % mc[k]))
+    for k in range(4):
+        mt.append("Definition cubic_spline_lut%d : list Z :=\n  %s." % (k, coq_list(luts[k])))
+    mt.append("Definition lfo_sine_wave : list Z :=\n  %s." % coq_list(sine))
+    mt.append("(* every MIXER(name) { ... } of mix_all.c: its statements with the whitespace removed *)")
+    mt.append("Definition mix_kernels : list (string * list string) :=\n  [" + ";\n   ".join(
+        '("%s"%%string, [%s])' % (n, "; ".join('"%s"%%string' % x for x in st)) for n, st in kernels) + "].")
+    V.write_if_changed(os.path.join(V.COQ, "Generated", "MixTables.v"), "\n".join(mt) + "\n")
     if with_objects:
         inv = syscall_inventory()
         sy = ["(* GENERATED from the objects compiled from /repo's working tree (nm -u). Do not edit. *)",
